@@ -153,7 +153,6 @@ func (d *dir) RepoGet(ctx context.Context, repoStr string) (Repo, error) {
 	}
 	dr.uploads = cache.New[string, *dirRepoUpload](uploadCacheOpts)
 	dr.wgBlock <- struct{}{}
-	d.repos.Set(repoStr, &dr)
 	statDir, err := os.Stat(dr.path)
 	if err == nil && statDir.IsDir() {
 		statIndex, errIndex := os.Stat(filepath.Join(dr.path, indexFile))
@@ -164,6 +163,8 @@ func (d *dir) RepoGet(ctx context.Context, repoStr string) (Repo, error) {
 		}
 	}
 	dr.wg.Add(1)
+	// the repo is visible to the GC once it is in the cache, all unlocked setup is finished before that
+	d.repos.Set(repoStr, &dr)
 	return &dr, nil
 }
 
@@ -301,8 +302,17 @@ func (dr *dirRepo) BlobGet(d digest.Digest) (io.ReadSeekCloser, error) {
 	return dr.blobGet(d, false)
 }
 
+// repoExists reports if the repo directory has been initialized.
+func (dr *dirRepo) repoExists(locked bool) bool {
+	if !locked {
+		dr.mu.Lock()
+		defer dr.mu.Unlock()
+	}
+	return dr.exists
+}
+
 func (dr *dirRepo) blobGet(d digest.Digest, locked bool) (io.ReadSeekCloser, error) {
-	if !dr.exists {
+	if !dr.repoExists(locked) {
 		return nil, fmt.Errorf("repo does not exist %s: %w", dr.name, types.ErrNotFound)
 	}
 	if err := d.Validate(); err != nil {
@@ -321,7 +331,7 @@ func (dr *dirRepo) blobGet(d digest.Digest, locked bool) (io.ReadSeekCloser, err
 // blobMeta returns metadata on a blob.
 func (dr *dirRepo) blobMeta(d digest.Digest, locked bool) (blobMeta, error) {
 	m := blobMeta{}
-	if !dr.exists {
+	if !dr.repoExists(locked) {
 		return m, fmt.Errorf("repo does not exist %s: %w", dr.name, types.ErrNotFound)
 	}
 
@@ -353,7 +363,7 @@ func (dr *dirRepo) BlobCreate(opts ...BlobOpt) (BlobCreator, string, error) {
 			return nil, "", err
 		}
 	}
-	if !dr.exists {
+	if !dr.repoExists(false) {
 		err := dr.repoInit(false)
 		if err != nil {
 			return nil, "", err
@@ -423,7 +433,7 @@ func (dr *dirRepo) blobDelete(d digest.Digest, locked bool) error {
 	if *dr.conf.Storage.ReadOnly {
 		return types.ErrReadOnly
 	}
-	if !dr.exists {
+	if !dr.repoExists(locked) {
 		return fmt.Errorf("repo does not exist %s: %w", dr.name, types.ErrNotFound)
 	}
 	if err := d.Validate(); err != nil {
